@@ -149,6 +149,9 @@ type c12World struct {
 	started time.Time
 	// length of the logger's buffer when the first RunUntil call of the last scenario returned
 	logLen1 int
+	// skipped: the last scenario was abandoned after the twin had run but before the System under test did
+	// (nothing to judge); the two Systems' memories are then out of step and are wiped before the next one
+	skipped bool
 }
 
 var (
@@ -291,6 +294,17 @@ func c12Exec(w *c12World, r c12Run) (sig, what string) {
 	if err != nil {
 		return "bad-case", err.Error()
 	}
+	if w.skipped {
+		for _, s := range []*emulator.System{w.sut, w.twin} {
+			for i := range s.ROM {
+				s.ROM[i] = 0
+			}
+			for i := range s.SRAM {
+				s.SRAM[i] = 0
+			}
+		}
+		w.skipped = false
+	}
 	c12Prepare(w.sut, r)
 	c12Prepare(w.twin, r)
 	// twin: the loop the property describes, stepped by hand
@@ -298,18 +312,27 @@ func c12Exec(w *c12World, r c12Run) (sig, what string) {
 	twinFetch := map[uint32]int{}
 	var consumed uint64
 	steps := 0
+	stepCap := r.Budget
+	if stepCap > 1000 {
+		stepCap = 1000 // every instruction takes at least one cycle; the huge budgets ("no limit") are only used with targets that are reached
+	}
 	for consumed < r.Budget && w.twin.GetPC() != r.Target {
 		twinPre = append(twinPre, c12Snapshot(w.twin))
 		twinFetch[w.twin.GetPC()]++
 		n, _ := w.twin.CPU.Step()
 		if n < 1 {
+			w.skipped = true
 			return "", "" // Step part of C12 judges this; the twin cannot continue meaningfully
 		}
 		consumed += uint64(n)
 		steps++
-		if steps > int(r.Budget)+2 {
+		if steps > int(stepCap)+2 {
 			break
 		}
+	}
+	if r.Budget > 1000 && consumed < r.Budget && w.twin.GetPC() != r.Target {
+		w.skipped = true
+		return "", "" // an effectively unlimited budget with a target that is not reached within 1000 instructions: not run
 	}
 	// system under test
 	var pw *plainWriter
@@ -324,7 +347,7 @@ func c12Exec(w *c12World, r c12Run) (sig, what string) {
 	}
 	var sutPre []c12Snap
 	calls := 0
-	guard := int(r.Budget) + 3
+	guard := int(stepCap) + 3
 	cb := map[uint32]func(){}
 	watch := func(a uint32) {
 		cb[a] = func() {
@@ -392,6 +415,13 @@ func c12Exec(w *c12World, r c12Run) (sig, what string) {
 	for i := range wantPre {
 		if sutPre[i] != wantPre[i] {
 			return "unexplained:onpc-sees-wrong-state", fmt.Sprintf("callback #%d saw %v, want the pre-instruction state %v | %s", i, sutPre[i], wantPre[i], desc())
+		}
+	}
+	if rw != nil {
+		for _, n := range rw.reserved {
+			if n < 0 {
+				return "unexplained:logger-reserve-negative", fmt.Sprintf("the logger was asked to Reserve(%d) | %s", n, desc())
+			}
 		}
 	}
 	if rw != nil && (rw.committed != 1 || len(rw.reserved) != 1) {
